@@ -119,6 +119,7 @@ def step (_ : Unit) (ws : List String) : Unit × String :=
         match fromRecord bs with
         | some k => s!"ok {kindName k}"
         | none => "err"
+    | ["reghex", h] => (unhex h).map fun text => if registerHexShapeOk text then "ok" else "err"
     | ["ischunk", h] => (unhex h).map fun bs =>
         match isChunk bs with
         | some b => s!"ok {b}"
